@@ -38,6 +38,10 @@ type lifeCase struct {
 	// sender's 100-slot delivery channel fills and a deliverer is blocked on it (holding the OLD channel)
 	// while the next incarnation replaces the registration and the old one then closes that channel
 	Stall bool `json:"stall,omitempty"`
+	// QuietReopen: once the scripts are done and nothing flows any more, R:1 is re-opened once more while its
+	// previous incarnation is still registered: whatever the new stream receives right away can only be the
+	// replay of the live receivers' last watermarks (the sources' period is 120 s)
+	QuietReopen bool `json:"quiet_reopen,omitempty"`
 }
 
 var cleanupPoints = []string{
@@ -247,6 +251,60 @@ func runLifecycle(c lifeCase) (viol []rec.Violation, counts map[string]int64, lo
 		time.Sleep(time.Second)
 	}
 	time.Sleep(time.Duration(5000+c.LateL2MS) * time.Millisecond)
+	if c.QuietReopen {
+		prev := newest
+		qOpen := time.Since(w.Rec.start).Milliseconds()
+		incs = append(incs, open(len(incs)+1))
+		newest = incs[len(incs)-1]
+		time.Sleep(1500 * time.Millisecond)
+		synctest.Wait()
+		w.Rec.mu.Lock()
+		got := 0
+		for _, e := range w.Rec.Events {
+			if e.Kind == "TGT_RECV" && e.Stream == newest.stream && len(e.IDs) == 0 && e.VTms >= qOpen && e.VTms <= qOpen+900 {
+				got++
+			}
+		}
+		// live receivers that route to cluster R and hold a last watermark: sources of cluster L whose stream has
+		// been up since well before this re-open (the receiver that is re-created together with R:1's stream
+		// holds none yet) and that have handed over a watermark-only batch
+		l2HasWatermark := false
+		opened, ended := map[string]int64{}, map[string]bool{}
+		for _, e := range w.Rec.Events {
+			switch {
+			case e.Kind == "SRC_OPEN" && e.Stream[0] == 'L':
+				opened[e.Stream] = e.VTms
+			case e.Kind == "SRC_END":
+				ended[e.Stream] = true
+			}
+		}
+		for _, e := range w.Rec.Events {
+			if e.Kind == "SRC_SEND" && e.Stream[0] == 'L' && len(e.IDs) == 0 && e.VTms < qOpen-5 && !ended[e.Stream] && opened[e.Stream] < qOpen-2000 {
+				if _, ok := opened[e.Stream]; ok {
+					l2HasWatermark = true
+				}
+			}
+		}
+		srcs := map[string]int{}
+		for _, e := range w.Rec.Events {
+			if e.Kind == "SRC_SEND" {
+				srcs[e.Stream]++
+			}
+		}
+		logf("quiet re-open: %d watermark-only messages on %s within 900 ms; source sends so far %v", got, newest.stream, srcs)
+		w.Rec.mu.Unlock()
+		if l2HasWatermark {
+			counts["quiet_reopen_replays_expected"]++
+			if got == 0 {
+				v("watermark-replay-missing:reopened-shard", "R:1 was re-opened as %s while %s was still registered and nothing was flowing; the new stream received no replayed watermark within 900 ms although a live receiver of a cluster-L source holds one", newest.stream, prev.stream)
+			} else {
+				counts["quiet_reopen_replays_seen"]++
+			}
+		}
+		logf("cancel %s", prev.stream)
+		prev.cancel()
+		time.Sleep(3 * time.Second)
+	}
 	// fresh target L:2 registers now: every active receiver routing to cluster L must replay its last watermark
 	l2Open := time.Since(w.Rec.start).Milliseconds()
 	go w.L.runTarget(ctx, 2, outbound, sc.Targets["L:2"])
@@ -480,7 +538,11 @@ func TestLifecycle(t *testing.T) {
 	sampled := 0
 	for idx, c := range cases {
 		c.Seed = rec.Mix(rec.Seed(), fmt.Sprint(idx))
+		c.QuietReopen = idx%3 == 1 && !c.Stall
 		c.Name = fmt.Sprintf("life/%d/%s", idx, strings.Join(c.Overlaps, "+"))
+		if c.QuietReopen {
+			c.Name += "/quiet-reopen"
+		}
 		if c.Stall {
 			c.Name += "/stalled-first"
 		}
